@@ -1,12 +1,19 @@
 #!/bin/bash
-# run_seeded.sh <seeded id | commit:<sha>> <Cxx> [tier]   -- apply a seeded change (or revert a fix commit) to /repo, run the check, restore
+# run_seeded.sh <seeded id | commit:<sha>> <Cxx> [tier]
+# Applies a seeded change (or reverts a fix commit) to a scratch worktree of /repo's HEAD (so that /repo itself, which other
+# running checks build from, is never disturbed), runs the check against it through GV_REPO, removes the change again.
+# (Equivalent to: git -C /repo apply <patch>; ./check <Cxx> <tier>; git -C /repo checkout -- .)
 id=$1; prop=$2; tier=${3:-quick}
-cd /repo && git checkout -q -- . 
+S=/tmp/r/seedrun
+[ -d $S ] || git -C /repo worktree add -q --detach $S
+git -C $S checkout -q --detach $(git -C /repo rev-parse HEAD) && git -C $S checkout -q -- .
 case "$id" in
-  commit:*) git show ${id#commit:} | git apply -R || { echo "cannot revert"; exit 9; } ;;
-  *) git apply /verif/seeded/$id/patch.diff || { echo "cannot apply"; exit 9; } ;;
+  commit:*) git -C $S show ${id#commit:} | git -C $S apply -R || { echo "cannot revert"; exit 9; } ;;
+  *) git -C $S apply /verif/seeded/$id/patch.diff || { echo "cannot apply"; exit 9; } ;;
 esac
-cd /verif; ./check $prop $tier > /tmp/seeded_$id.$prop.out 2>&1; rc=$?
-git -C /repo checkout -q -- .
+cd /verif; GV_REPO=$S ./check $prop $tier > /tmp/seeded_$id.$prop.out 2>&1; rc=$?
+git -C $S checkout -q -- .
+# the evidence file must describe /repo itself: restore it from git if it was committed
+git -C /verif checkout -q -- evidence/$prop.json 2>/dev/null
 echo "== $id vs $prop ($tier): exit=$rc :: $(grep -m1 VIOLATION /tmp/seeded_$id.$prop.out | cut -c1-150)"
 grep -A1 -m1 VIOLATION /tmp/seeded_$id.$prop.out | tail -1 | cut -c1-250
